@@ -380,6 +380,19 @@ def run_zero(rep):
             ("x*around(x, decimals=2)", lambda: grad(lambda v: anp.sum(v * anp.around(v, decimals=2)))(onp.array([0.733, -1.318, 2.444])), onp.array([0.73, -1.32, 2.44])),
             ("x*x.round(1) method", lambda: grad(lambda v: anp.sum(v * v.round(1)))(onp.array([0.73, -1.31, 2.44])), onp.array([0.7, -1.3, 2.4])),
             ("round(x, 1) value is plain", lambda: make_vjp(lambda v: anp.round(v, 1) * 1.0 + v)(onp.array([0.73]))[1], onp.array([0.7 + 0.73])),
+            # the exact zero is an element of the ARGUMENT's space: same shape and (for low-precision / complex64 arguments) same dtype  [dtype] = exact dtype compared
+            ("grad const float32 arg [dtype]", lambda: grad(lambda v: 3.0)(onp.ones(3, dtype=onp.float32)), onp.zeros(3, dtype=onp.float32)),
+            ("grad const float16 arg [dtype]", lambda: grad(lambda v: 3.0)(onp.ones((2, 2), dtype=onp.float16)), onp.zeros((2, 2), dtype=onp.float16)),
+            ("grad const complex64 arg [dtype]", lambda: grad(lambda v: 3.0)(onp.ones(2, dtype=onp.complex64)), onp.zeros(2, dtype=onp.complex64)),
+            ("jvp const float32 arg [dtype]", lambda: make_jvp(lambda v: v * 0 + 1.0 if False else onp.ones(2, dtype=onp.float32))(onp.ones(3, dtype=onp.float32))(onp.ones(3, dtype=onp.float32))[1], onp.zeros(2, dtype=onp.float32)),
+            ("grad floor float32 [dtype]", lambda: grad(lambda v: anp.sum(anp.floor(v)))(onp.array([0.3, 1.7], dtype=onp.float32)), onp.zeros(2, dtype=onp.float32)),
+            ("unused entries float32 [dtype]", lambda: grad(lambda v: v[0] * 2)(onp.array([0.5, 1.5, 2.5], dtype=onp.float32)), onp.array([2.0, 0.0, 0.0], dtype=onp.float32)),
+            ("grad const float64 arg [dtype]", lambda: grad(lambda v: 3.0)(x), onp.zeros(3)),
+            # an EMPTY output (diff along an axis with fewer than n + 1 entries) depends on nothing: zero of the argument's shape
+            ("diff n=3 on length 2", lambda: grad(lambda v: anp.sum(anp.diff(v, n=3)) + 0.0)(onp.array([1.0, 2.0])), onp.zeros(2)),
+            ("diff n=2 axis=0 on (1,3)", lambda: grad(lambda v: anp.sum(anp.diff(v, n=2, axis=0)) + 0.0)(onp.ones((1, 3))), onp.zeros((1, 3))),
+            ("diff n=4 axis=1 on (2,3)", lambda: make_vjp(lambda v: anp.diff(v, n=4, axis=1))(onp.ones((2, 3)))[0](onp.zeros((2, 0))), onp.zeros((2, 3))),
+            ("empty slice", lambda: grad(lambda v: anp.sum(v[3:]) + 0.0)(x), onp.zeros(3)),
             ("maximum with -inf", lambda: grad(lambda v: anp.sum(anp.maximum(v, -onp.inf) * 3.0))(onp.array([1.0, -2.0])), onp.array([3.0, 3.0])),
         ]
         for lab, fn, exp in tests:
@@ -390,7 +403,7 @@ def run_zero(rep):
                 elif isinstance(exp, dict):
                     ok = isinstance(got, dict) and list(got) == list(exp) and all(same(got[k], exp[k]) for k in exp)
                 else:
-                    ok = got is not None and same(got, exp)
+                    ok = got is not None and same(got, exp) and ("[dtype]" not in lab or onp.asarray(got).dtype == onp.asarray(exp).dtype)
                 out.append((lab, ok, f"got {got!r}, expected {exp!r}"))
             except Exception as e:
                 out.append((lab, False, f"raised {type(e).__name__}: {str(e)[:100]}"))
